@@ -67,8 +67,15 @@ func (d *navDoc) xml(i int, sb *strings.Builder) {
 		fmt.Fprintf(sb, ` a%d_%d="v%d_%d"`, i, k, i, k)
 	}
 	sb.WriteString(">")
+	prevText := false
 	for _, c := range d.kids(i) {
-		d.xml(c, sb)
+		if d.Kind[c-1] == "T" && prevText {
+			// a text node right after a text node: a CDATA section boundary keeps them apart
+			fmt.Fprintf(sb, "<![CDATA[t%d]]>", c)
+		} else {
+			d.xml(c, sb)
+		}
+		prevText = d.Kind[c-1] == "T"
 	}
 	fmt.Fprintf(sb, "</e%d>", i)
 }
@@ -253,7 +260,22 @@ func c11Drive(args []string) int {
 		lastText := false
 		for k := r.Intn(4); k > 0 && depth < 4; k-- {
 			if !lastText && r.Intn(3) == 0 {
-				kids.WriteString([]string{"1", "2", "x y", "é"}[r.Intn(4)])
+				// character data: one plain run, or a run cut into several text nodes by CDATA section boundaries
+				txt := []string{"1", "2", "x y", "é"}
+				if r.Intn(4) == 0 {
+					for k, m := 0, 2+r.Intn(2); k < m; k++ {
+						if (k+m)%2 == 0 {
+							kids.WriteString("<![CDATA[" + txt[r.Intn(4)] + "]]>")
+						} else {
+							kids.WriteString(txt[r.Intn(4)])
+						}
+					}
+					if r.Intn(3) == 0 {
+						kids.WriteString("<![CDATA[<&]]>")
+					}
+				} else {
+					kids.WriteString(txt[r.Intn(4)])
+				}
 				lastText = true
 			} else {
 				kids.WriteString(gen(depth + 1))
